@@ -32,8 +32,25 @@ Definition body (h : hdr) (subs : list node) (sub : done -> node -> cres) (d : d
   let seq := seq_nodes sub in
   let own := emit h (EvResolve (h_module h) (h_class h)) in
   match h_kind h with
-  | KDict | KList | KSet | KTuple | KCtorReduce | KRandomState | KObject | KOperatorFunc =>
+  | KList | KSet | KTuple | KCtorReduce | KRandomState | KObject | KOperatorFunc =>
       then_ (own d) (seq subs)
+  | KDict =>
+      (* for k_type, (key, val) in zip(key_types, content.items()): only as many values are constructed
+         as the key_types list has entries *)
+      match subs with
+      | kt :: vals =>
+          let n := match kt with
+                   | Node hk ks =>
+                       match h_kind hk, ks with
+                       | KList, [Leaf _ LEmptyList] => O
+                       | KList, _ => length ks
+                       | _, _ => length vals
+                       end
+                   | _ => length vals
+                   end in
+          then_ (own d) (seq (kt :: firstn n vals))
+      | [] => own d
+      end
   | KDefaultDict =>
       match subs with
       | [a; b] => then_ (sub d a) (fun d => then_ (emit h (EvFixed (s "collections.defaultdict")) d) (fun d => sub d b))
